@@ -200,6 +200,26 @@ def gen(rng, tier, plain=False):
             else:
                 for x in s['workload']:
                     x[0] = x[0] / c
+    if not tick and not case.get('fast_link') and not plain and rng.random() < 1 / 70:
+        # a long haul through one scheduler (or port): thousands of packets in one busy period, nothing may be lost,
+        # reordered within a flow, or left behind
+        kinds = ['WFQ', 'WFQ', 'DRR', 'SP', 'VC', 'Port']
+        st = None
+        for _ in range(40):
+            st = gen_stage(rng, flows, False, tick=False)
+            if st['t'] in kinds:
+                break
+        if st is not None and st['t'] in kinds:
+            if st['t'] == 'Port':
+                st['qlimit'] = None
+            rate = st.get('rate') or 8192
+            n = rng.choice([2600, 4200, 9300])
+            step = 1024 * 8.0 / rate * (10.5 / 11) * 31 / 32.0
+            case['stages'] = [st]
+            case['sources'] = [{'kind': 'inj', 'id': 'i0',
+                                'workload': [[k * step, flows[(k * 7 + k // 5) % len(flows)], 1024 if k % 11 else 512]
+                                             for k in range(n)]}]
+            case['long_haul'] = True
     return case
 
 
@@ -378,7 +398,7 @@ def run(case):
     env = w.env
     b, gens, restore = build_pipeline(w, case)
     try:
-        w.run(max_steps=60000)
+        w.run(max_steps=600000 if case.get('long_haul') else 60000)
     finally:
         restore()
     viol, stats, nontrivial = check(w, case, b, gens)
